@@ -156,3 +156,157 @@ Example ex_rigid_result :
   map (fun r => (particle r, frame r, pos r)) (subtract_own_drift ex_rigid) =
   [(0, 2, 4%Q); (0, 3, 4%Q); (1, 3, 14%Q); (0, 4, 4%Q); (1, 4, 14%Q); (1, 5, 14%Q)].
 Proof. vm_compute. reflexivity. Qed.
+
+(* ==== route T: the same statements for the code GENERATED from trackpy/motion.py ==========
+   tools/py2coq_drift.py translates the current text of compute_drift / subtract_drift
+   (and guess_pos_columns of utils.py) into Gen/drift.v: py_compute_drift,
+   py_subtract_drift, py_guess_pos_columns, polymorphic in the pandas interface of
+   Model/PyDrift.v.  Below they are read in the interpretation [DriftI rolling]: a table
+   [T : mtable] carries ALL columns (m_val r c is the value of row r in column c),
+   [proj c T] is the one-column table of Model/Drift.v that column c of T is,
+   [curve_col c d] is column c of a drift table, [rolling] is the smoothing primitive
+   (dx.rolling(n, min_periods=0).mean(), left uninterpreted; not reached for smoothing <= 0).
+   py_subtract_drift returns (the caller's table afterwards, the returned table). *)
+From Coq Require Import String.
+From TP Require Import Model.PyDrift Gen.drift Proofs.DriftGen.
+Local Open Scope string_scope.
+
+(* The generated compute_drift is the model, column by column, whatever position columns are asked for. *)
+Theorem C18_gen_compute_drift : forall rolling T s pcs c,
+  s <= 0 ->
+  curve_col c (py_compute_drift (DriftI rolling) T s (Some pcs)) = compute_drift (proj c T).
+Proof. exact gen_compute_drift_eq. Qed.
+Print Assumptions C18_gen_compute_drift.
+
+(* Its columns are the position columns asked for, in that order (names other than particle / frame / frame_diff). *)
+Theorem C18_gen_compute_drift_columns : forall rolling T s pcs,
+  s <= 0 -> pos_names_ok pcs = true ->
+  p_columns (DriftI rolling) (py_compute_drift (DriftI rolling) T s (Some pcs)) = pcs.
+Proof. exact gen_compute_drift_columns. Qed.
+Print Assumptions C18_gen_compute_drift_columns.
+
+(* pos_columns=None: the columns guess_pos_columns names (['z','y','x'] if there is a column z, else ['y','x']). *)
+Theorem C18_gen_compute_drift_default : forall rolling T s c,
+  s <= 0 ->
+  curve_col c (py_compute_drift (DriftI rolling) T s None) = compute_drift (proj c T) /\
+  p_columns (DriftI rolling) (py_compute_drift (DriftI rolling) T s None) = py_guess_pos_columns (DriftI rolling) T.
+Proof. exact gen_compute_drift_default. Qed.
+Print Assumptions C18_gen_compute_drift_default.
+
+(* The generated subtract_drift(traj, drift): the caller's table is untouched, every column of the
+   drift table goes through the model's subtract_drift, every other column is only reordered. *)
+Theorem C18_gen_subtract_drift : forall rolling T D,
+  NoDup (cv_cols D) ->
+  let out := py_subtract_drift (DriftI rolling) T (Some D) false in
+  fst out = T /\
+  (forall c, In c (cv_cols D) -> proj c (snd out) = subtract_drift (proj c T) (curve_col c D)) /\
+  (forall c, ~ In c (cv_cols D) -> proj c (snd out) = isort le_fp (proj c T)).
+Proof. exact gen_subtract_drift_eq. Qed.
+Print Assumptions C18_gen_subtract_drift.
+
+(* inplace=True: the caller's table is the returned one. *)
+Theorem C18_gen_subtract_drift_inplace : forall rolling T D,
+  fst (py_subtract_drift (DriftI rolling) T (Some D) true) = snd (py_subtract_drift (DriftI rolling) T (Some D) true).
+Proof. exact gen_subtract_drift_inplace. Qed.
+Print Assumptions C18_gen_subtract_drift_inplace.
+
+(* drift=None: the table's own drift (measured on the caller's table before anything else happens). *)
+Theorem C18_gen_subtract_own_drift : forall rolling T,
+  let out := py_subtract_drift (DriftI rolling) T None false in
+  fst out = T /\
+  (forall c, In c (py_guess_pos_columns (DriftI rolling) T) -> proj c (snd out) = subtract_own_drift (proj c T)) /\
+  (forall c, ~ In c (py_guess_pos_columns (DriftI rolling) T) -> proj c (snd out) = isort le_fp (proj c T)).
+Proof. exact gen_subtract_own_eq. Qed.
+Print Assumptions C18_gen_subtract_own_drift.
+
+(* C18_def for the generated function. *)
+Theorem C18_gen_def : forall rolling T pcs c,
+  trajectory_table (proj c T) ->
+  let d := curve_col c (py_compute_drift (DriftI rolling) T 0 pcs) in
+  StronglySorted Z.lt (map fst d) /\
+  (forall f, In f (map fst d) <-> measured (proj c T) f) /\
+  is_cumsum (mean_disp (proj c T)) 0%Q d.
+Proof. exact gen_drift_def. Qed.
+Print Assumptions C18_gen_def.
+
+(* C18_order_independent for the generated function. *)
+Theorem C18_gen_order_independent : forall rolling T T' pcs c,
+  trajectory_table (proj c T) -> Permutation (mt_rows T) (mt_rows T') ->
+  curve_col c (py_compute_drift (DriftI rolling) T 0 (Some pcs)) =
+  curve_col c (py_compute_drift (DriftI rolling) T' 0 (Some pcs)).
+Proof. exact gen_drift_order_independent. Qed.
+Print Assumptions C18_gen_order_independent.
+
+(* C18_subtract_exact for the generated function, with the caller's table. *)
+Theorem C18_gen_subtract_exact : forall rolling T D c,
+  NoDup (cv_cols D) -> In c (cv_cols D) ->
+  fst (py_subtract_drift (DriftI rolling) T (Some D) false) = T /\
+  exists t0, Permutation t0 (proj c T) /\
+    Forall2 (row_subtracted (curve_col c D)) t0 (proj c (snd (py_subtract_drift (DriftI rolling) T (Some D) false))).
+Proof. exact gen_subtract_exact. Qed.
+Print Assumptions C18_gen_subtract_exact.
+
+(* Columns that are not columns of the drift table keep their values (rows reordered). *)
+Theorem C18_gen_other_columns : forall rolling T D c,
+  NoDup (cv_cols D) -> ~ In c (cv_cols D) ->
+  Permutation (proj c (snd (py_subtract_drift (DriftI rolling) T (Some D) false))) (proj c T).
+Proof. exact gen_subtract_other_columns. Qed.
+Print Assumptions C18_gen_other_columns.
+
+(* C18_remeasured_zero: compute_drift(subtract_drift(traj)), both generated. *)
+Theorem C18_gen_remeasured_zero : forall rolling T c,
+  In c (py_guess_pos_columns (DriftI rolling) T) ->
+  trajectory_table (proj c T) -> gapless (proj c T) ->
+  let again := curve_col c (py_compute_drift (DriftI rolling)
+                              (snd (py_subtract_drift (DriftI rolling) T None false)) 0 None) in
+  map fst again = map fst (curve_col c (py_compute_drift (DriftI rolling) T 0 None)) /\
+  Forall (fun fv : Z * Q => (snd fv == 0)%Q) again.
+Proof. exact gen_remeasured_zero. Qed.
+Print Assumptions C18_gen_remeasured_zero.
+
+(* C18_rigid_motion_removed for the generated subtract_drift. *)
+Theorem C18_gen_rigid_motion_removed : forall rolling base cc T c f0,
+  In c (py_guess_pos_columns (DriftI rolling) T) ->
+  trajectory_table (proj c T) -> gapless (proj c T) -> rigid base cc (proj c T) ->
+  (measured (proj c T) f0 /\ forall g, measured (proj c T) g -> f0 <= g) ->
+  forall r', In r' (proj c (snd (py_subtract_drift (DriftI rolling) T None false))) ->
+  measured (proj c T) (frame r') \/ frame r' = f0 - 1 ->
+  (pos r' == base (particle r') + cc (f0 - 1)%Z)%Q.
+Proof. exact gen_rigid_removed. Qed.
+Print Assumptions C18_gen_rigid_motion_removed.
+
+(* non-vacuity: ex_ok as column y, 2*y + 1 as column x, a third column left alone; the table is
+   indexed by frame as filter_stubs returns it.  The generated code is run. *)
+Definition ex_gen : mtable :=
+  mkMT ["y"; "x"; "mass"] ["frame"]
+       (map (fun r => mkM (particle r) (frame r)
+                          (fun n => if String.eqb n "y" then pos r
+                                    else if String.eqb n "x" then (2 * pos r + 1)%Q else 7%Q)
+                          (other r)) ex_ok).
+Definition ex_I := DriftI (fun d _ => d).
+
+Example ex_gen_run :
+  proj "y" ex_gen = ex_ok /\
+  p_columns ex_I (py_compute_drift ex_I ex_gen 0 None) = ["y"; "x"] /\
+  curve_col "y" (py_compute_drift ex_I ex_gen 0 None) = [(1, 1%Q); (2, (9#4)%Q); (3, (21#4)%Q)] /\
+  curve_col "x" (py_compute_drift ex_I ex_gen 0 None) = [(1, 2%Q); (2, (9#2)%Q); (3, (21#2)%Q)] /\
+  mt_index (fst (py_subtract_drift ex_I ex_gen None false)) = ["frame"] /\
+  mt_index (snd (py_subtract_drift ex_I ex_gen None false)) = ["frame"; "particle"] /\
+  map pos (proj "y" (snd (py_subtract_drift ex_I ex_gen None false))) = [0; 4; 0; 4; 3#4; 13#4; 5#4; 15#4; 3#4]%Q /\
+  map pos (proj "mass" (snd (py_subtract_drift ex_I ex_gen None false))) = [7; 7; 7; 7; 7; 7; 7; 7; 7]%Q /\
+  curve_col "x" (py_compute_drift ex_I (snd (py_subtract_drift ex_I ex_gen None false)) 0 None) = [(1, 0%Q); (2, 0%Q); (3, 0%Q)].
+Proof. vm_compute. repeat split. Qed.
+
+(* The primitive p_pandas_sort against the body of trackpy.utils.pandas_sort as C20's translator
+   generates it (Gen/filtering.v py_pandas_sort), read on the same tables (Proofs/DriftSortLink.v
+   SortI: index attributes from mt_index, sort_values = stable lexicographic sort on the key
+   columns): on a table with a RangeIndex -- what compute_drift passes, the result of
+   reset_index(drop=True) -- the generated pandas_sort leaves its argument as it is and returns
+   what the primitive returns. *)
+From TP Require Proofs.DriftSortLink Model.TrajLayout Model.PyFiltering Gen.filtering.
+Theorem C18_gen_pandas_sort_primitive : forall rolling (T : mtable) (by_ : list name),
+  mt_index T = [] ->
+  Gen.filtering.py_pandas_sort Proofs.DriftSortLink.SortI T (Model.TrajLayout.ByList by_) false =
+  Model.PyFiltering.ROk (T, Some (p_pandas_sort (DriftI rolling) T by_)).
+Proof. exact Proofs.DriftSortLink.pandas_sort_primitive. Qed.
+Print Assumptions C18_gen_pandas_sort_primitive.
